@@ -31,12 +31,13 @@ REQUIRED = ['getNBest_perm', 'getNBest_rename', 'mem_getNBest_iff', 'symmetric_c
             'copeland_rule_rename', 'minimax_rule_rename', 'schulze_rule_rename', 'condorcet_winner_rule_rename',
             'smith_rule_rename', 'schwartz_rule_rename', 'kemeny_young_rule_rename',
             'stv_perm', 'stv_perm_eq', 'stv_order_of_equal_winners_witness', 'stv_distributor_perm',
-            'majority_judgment_perm', 'majority_judgment_rename_mono_partial',
+            'majority_judgment_perm', 'majority_judgment_rename_mono_partial', 'majority_judgment_rename',
+            'majority_judgment_rename_same', 'mj_tiebreak_default_row_order',
             'copeland_rename_both', 'stv_rename', 'stv_distributor_rename', 'slotsEquiv_symm', 'slotsEquiv_trans', 'slotsEquiv_elected',
             'copeland_symmetric_candidates', 'minimax_symmetric_candidates', 'schulze_symmetric_candidates',
             'condorcet_sets_symmetric_candidates', 'stv_symmetric_candidates', 'score_voting_symmetric_candidates',
             'pav_symmetric_candidates', 'spav_symmetric_candidates',
-            'quota_distributor_perm_all', 'largest_remainder_perm_all', 'ranked_pairs_pairwise_tie_order_witness',
+            'quota_distributor_perm_all', 'largest_remainder_perm_all', 'quota_distributor_rename_all', 'largest_remainder_rename_all', 'pure_proportionality_perm', 'pure_proportionality_rename', 'pure_constrained_perm', 'pure_constrained_rename', 'ranked_pairs_pairwise_tie_order_witness',
             'copeland_rule_perm_at', 'minimax_rule_perm_at', 'schulze_rule_perm_at', 'condorcet_winner_rule_perm_at',
             'smith_rule_perm_at', 'schwartz_rule_perm_at', 'kemeny_young_rule_perm_at', 'ranked_pairs_rule_perm_at',
             'minimax_rule_rename_at', 'schulze_rule_rename_at', 'condorcet_winner_rule_rename_at', 'smith_rule_rename_at',
@@ -44,7 +45,7 @@ REQUIRED = ['getNBest_perm', 'getNBest_rename', 'mem_getNBest_iff', 'symmetric_c
             'copeland_symmetric_candidates_at', 'minimax_symmetric_candidates_at', 'schulze_symmetric_candidates_at',
             'condorcet_winner_symmetric_candidates_at', 'smith_symmetric_candidates_at', 'schwartz_symmetric_candidates_at',
             'baldwin_perm', 'baldwin_rename', 'benham_perm', 'tideman_perm', 'star_perm',
-            'baldwin_rename_noshared', 'baldwin_symmetric_candidates', 'benham_rename', 'tideman_rename', 'tideman_n_perm', 'tideman_n_rename', 'star_rename',
+            'baldwin_rename_noshared', 'baldwin_symmetric_candidates', 'benham_rename', 'benham_n_perm', 'benham_n_rename', 'tideman_rename', 'tideman_n_perm', 'tideman_n_rename', 'star_rename',
             'star_rename_relisted', 'preference_addition_perm', 'decouple_perm', 'preference_addition_order_witness',
             'preference_addition_rename']
 _LR = ['hare', 'hagenbach_bischoff', 'imperiali', 'droop', 'hare_rounded', 'hagenbach_bischoff_ceil', 'hagenbach_bischoff_rounded']
@@ -125,12 +126,14 @@ for _fam in [f for f in list(MODEL) if f.startswith('condorcet_') or f in ('smit
     _op = MODEL[_fam][0]
     MODEL[_fam + '_sparse'] = ((lambda prof, n, _op=_op: dict(_op(prof, n), bottom=False)), 'sel')
 PROVED_FAMILIES = list(MODEL)
-# models of C08 (Baldwin, n-seat PreferenceAddition), C05 (Benham: one seat, modelled for n = 1 only; Tideman: tidemanN, any n) and C12 (STAR)
-PROVED_FAMILIES += ['baldwin', 'benham', 'tideman_alternative', 'star', 'bucklin', 'oklahoma']
+# models of C08 (Baldwin, n-seat PreferenceAddition), C05 (Benham: benhamN = AssertionError unless n = 1; Tideman: tidemanN, any n) and C12 (STAR)
+PROVED_FAMILIES += ['pure_proportionality', 'pure_proportionality_constrained', 'baldwin', 'benham', 'tideman_alternative', 'star', 'bucklin', 'oklahoma']
+MODEL['pure_proportionality'] = (_simple('pure_proportionality', prev=None, max=None), 'dist')
+MODEL['pure_proportionality_constrained'] = (_simple('c10_pure_constrained'), 'dist')
 MODEL['baldwin'] = (_simple('baldwin'), 'sel')
 MODEL['bucklin'] = (_simple('preference_addition', coef='bucklin', split=True), 'sel')
 MODEL['oklahoma'] = (_simple('preference_addition', coef='oklahoma', split=True), 'sel')
-MODEL['benham'] = ((lambda prof, n: dict(op='benham', profile=prof) if n == 1 else None), 'sel')
+MODEL['benham'] = ((lambda prof, n: dict(op='c10_benham', profile=prof, n=n)), 'sel')
 MODEL['tideman_alternative'] = ((lambda prof, n: dict(op='tideman', profile=prof, smith=True, n=n)), 'sel')
 MODEL['star'] = ((lambda prof, n: dict(op='c10_star', votes=[[[[c, str(sc)] for c, sc in b], int(w)] for b, w in prof], n=n,
                                        added_count=1, added_fraction='0', unscored=None, min_count=0, truncation='0', bottom='0')), 'sel')
@@ -154,12 +157,8 @@ except Exception:
     pass
 # statements of the proved families that are NOT covered by a theorem
 UNPROVED += [
-    'quota_distributor_rename_subtract (renaming equivariance of QuotaDistributor / LargestRemainder with on_overaward="subtract"; '
-    'ballot order is proved for every policy)',
     'ranked_pairs_perm_distinct_majorities_only (FALSE of the code for pairwise ties: ranked_pairs_pairwise_tie_order_witness, open '
     'finding; proved under Perm.RPDistinct: the (score, count) sort keys separate ALL pairs)',
-    'benham for n_seats > 1 (the model of C05 is one-seat; n = 1 is proved; Tideman alternative is proved for every n)',
-    'majority_judgment_rename (proved for order-preserving renamings only: majority_judgment_rename_mono_partial)',
     'rename_equivariant_thresholds_quota_selector_under_noninjective: n/a (proved for every renaming)',
     'hash_seed_independence (not expressible in a Lean model; sampled)',
 ]
@@ -478,6 +477,9 @@ def compare(case, iobs, mobs):
                 mobs = _unrename(mobs, inv)
     else:
         got = iobs['perms'][-1]
+    if kind == 'dist':          # seat counts: ints and exact fractions ("p/q") compared as numbers
+        norm = lambda o: [[k, str(Fraction(v))] for k, v in o] if isinstance(o, list) else o
+        got, mobs = norm(got), norm(mobs)
     a = _multiset(kind, got)
     b = _multiset(kind, mobs)
     if a != b:
@@ -524,10 +526,10 @@ TECHNIQUE = ('Lean 4 proofs of permutation invariance and renaming equivariance 
              'deterministic families, permutations, renamings and hash seeds')
 LEVEL_TEXT = ('Ballot-order independence and renaming equivariance (up to the order of equally placed winners and of tie members, made explicit by '
               'SlotsEquiv / ExceptEquiv / DistEquiv) are proved in Lean for all inputs for: plurality/get_n_best, the thresholds, QuotaSelector, all '
-              'highest-averages methods, QuotaDistributor and LargestRemainder (order: every over-award policy; renaming: error/ignore), the converters to simple / positional / '
+              'highest-averages methods, QuotaDistributor and LargestRemainder (every over-award policy), PureProportionality (with floors and caps), the converters to simple / positional / '
               'pairwise votes and the positional rules and approval voting built on them, Condorcet winner, Smith and Schwartz sets, Copeland '
               '(both orders), minimax (3 scorers), Schulze, Kemeny-Young, ranked pairs (order: under separated sort keys), STV with Gregory '
-              'transfers (selector and distributor), PAV, SPAV, score voting, majority judgment (renaming: order-preserving only), STAR, Baldwin, '
+              'transfers (selector and distributor), PAV, SPAV, score voting, majority judgment, STAR, Baldwin, '
               'Bucklin / Oklahoma (n seats, with the decoupling of shared ranks), Benham and Tideman alternative (one seat); with the '
               'symmetric-candidates corollary for most of them. The models are those of the owning properties, evaluated here on permuted and '
               'renamed presentations against the implementation. Allocated score (genuinely order dependent: open findings) and Benham / Tideman '
